@@ -149,6 +149,22 @@ func registerIntrinsics(e *Exec) {
 			e.tc.nvars++
 			src := SliceV{Base: Ptr{Obj: e.alloc(st, ByteBuf{C: &CBase{arr}, Len: s.Len})}, Off: e.tc.Int(0), Len: s.Len, Cap: s.Len}
 			e.copyInto(st, s, src)
+			if st.distinctRand && s.Len.konst && s.Len.cv == 4 {
+				// opt-in environment assumption (vDistinctRandom): a fresh 4-byte random value differs from the earlier ones
+				var v *Term
+				for i := 0; i < 4; i++ {
+					b := e.tc.Select(arr, e.tc.Int(int64(i)))
+					if v == nil {
+						v = b
+					} else {
+						v = e.tc.Concat(v, b)
+					}
+				}
+				for _, old := range st.randVals {
+					st.assume(e.tc.Not(e.tc.Eq(v, old)))
+				}
+				st.randVals = append(st.randVals, v)
+			}
 		}
 		return ret(st, BV{s.Len}, IfaceV{})
 	}
